@@ -59,6 +59,16 @@ MUTANTS = [
          new="                if not index_to_vaxis[index].unify(vaxis, subst):\n                    result_is_zero = False\n            else:\n                index_to_vaxis[index] = vaxis\n    output_vaxes = tuple(index_to_vaxis[index].clone(subst) for index in output)"),
     dict(id='c07-bool-einsum-ge', property='C07', file='fggs/semirings.py', old='block_size=torch_semiring_einsum.AUTOMATIC_BLOCK_SIZE) > 0', new='block_size=torch_semiring_einsum.AUTOMATIC_BLOCK_SIZE) > 1'),
     dict(id='c07-post-einsum-order', property=['C07', 'C01'], file='fggs/equation.py', old="    unsqueeze_index = sorted([compiled_equation.output_variables.index(v)\n                              for v in removed_vars])", new="    unsqueeze_index = [compiled_equation.output_variables.index(v)\n                              for v in sorted(removed_vars)]"),
+    # ---- C13
+    dict(id='c13-equal-no-freshen', property='C13', file='fggs/indices.py', old="        n = s.numel()\n        if not self.isdisjoint(other): other = other.freshen()\n        selfok  = self.physical == other.default", new="        n = s.numel()\n        selfok  = self.physical == other.default"),
+    dict(id='c13-equal-count-lt', property='C13', file='fggs/indices.py', old="        return (n <= selfok.numel() + otherok.numel() or\n                self.default == other.default) and \\\n               bool(selfok.all()) and bool(otherok.all())",
+         new="        return (n < selfok.numel() + otherok.numel() or\n                self.default == other.default) and \\\n               bool(selfok.all()) and bool(otherok.all())"),
+    dict(id='c13-equal-ignore-defaults', property='C13', file='fggs/indices.py', old="        return (n <= selfok.numel() + otherok.numel() or\n                self.default == other.default) and \\\n               bool(selfok.all()) and bool(otherok.all())",
+         new="        return bool(selfok.all()) and bool(otherok.all())"),
+    dict(id='c13-allclose-otherok-swapped', property='C13', file='fggs/indices.py', old="        otherok = self.physical.new_tensor(self.default).isclose(other.physical, rtol=rtol, atol=atol, equal_nan=equal_nan)", new="        otherok = other.physical.isclose(self.physical.new_tensor(self.default), rtol=rtol, atol=atol, equal_nan=equal_nan)"),
+    dict(id='c13-multi-absent-skip', property='C13', file='fggs/multi.py', old="            for k, t in other.items():\n                if k not in self:\n                    assert(t.default == self.semiring.from_int(0).item())\n                    if not t.allclose_default(atol=tol, rtol=0.): return False\n        return True",
+         new="        return True"),
+    dict(id='c13-equal-shape-check', property='C13', file='fggs/indices.py', old="        s = self.size()\n        if s != other.size(): return False\n        n = s.numel()\n        if not self.isdisjoint(other): other = other.freshen()\n        selfok  = self.physical == other.default", new="        s = self.size()\n        if s.numel() != other.size().numel(): return False\n        n = s.numel()\n        if not self.isdisjoint(other): other = other.freshen()\n        selfok  = self.physical == other.default"),
     # ---- C16
     dict(id='c16-copy-shares-nodes-dict', property='C16', file='fggs/fggs.py', old='        copy._nodes = dict(self._nodes)', new='        copy._nodes = self._nodes'),
     dict(id='c16-remove-node-no-ext-guard', property='C16', file='fggs/fggs.py', old="        if node in self.ext:\n            raise ValueError", new="        if False and node in self.ext:\n            raise ValueError"),
